@@ -101,7 +101,7 @@ def build_symbolic(shape, profile=False):
     """Explore the shape builder + the real initialize(); returns the list of paths."""
     import processscheduler as ps
 
-    ex = engine.Explorer(all_sym=shape.all_sym)
+    ex = engine.Explorer(all_sym=shape.all_sym, max_paths=getattr(shape, "max_paths", 512))
 
     def run():
         P = engine.Params("sym", explorer=ex)
